@@ -246,7 +246,8 @@ fn plain_set() -> InstructionSet {
 fn crowd_envelope() -> Envelope {
     let mut e = Envelope::standard();
     e.e_events = u64::MAX;
-    e.e_bytes = 256 << 20;
+    // one step may clone its operands several times over: keep far below the worker's allocation ceiling
+    e.e_bytes = 24 << 20;
     e
 }
 
